@@ -59,10 +59,13 @@ func checkC13(c *Ctx) error {
 	st := &c13State{corpus: corpus}
 	c.extra["corpus_programs"] = len(corpus)
 
-	// (1) every corpus program over all paths, 8 executions
+	// (1) every corpus program over all paths, 8 executions; a probe for state that outlives a render is rendered with a
+	// fresh context before and after (between them lie all the disturbing renders of c13Disturb)
+	c13LeakProbe(c, "before any other render")
 	for i := range corpus {
 		c13Soak(c, &corpus[i])
 	}
+	c13LeakProbe(c, "after the corpus")
 
 	// (2) histories from the model, replayed sequentially (CacheEnabled is a global)
 	if c.ReplayPath != "" {
@@ -209,12 +212,39 @@ type c13Boom struct{}
 
 func (c13Boom) String() string { panic("verif: a String method that panics") }
 
-// c13Disturb performs such a render and recovers: nothing of it may be seen by any later render.
+// c13BoomIter is an Iterator that panics: a loop over it dies half-way, in code of the data.
+type c13BoomIter struct{}
+
+func (c13BoomIter) Next() interface{} { panic("verif: an iterator that panics") }
+
+// c13Disturb performs renders whose traces no later render may see: renders abandoned half-way (a panic in code of the
+// data, after output was produced), and renders WITHOUT data of the caller's (nil maps) that bind names at top level.
 func c13Disturb() {
-	defer func() { recover() }()
-	ctx := plush.NewContext()
-	ctx.Set("boom", c13Boom{})
-	plush.Render("leftover of an abandoned render<%= boom %>", ctx)
+	func() {
+		defer func() { recover() }()
+		ctx := plush.NewContext()
+		ctx.Set("boom", c13Boom{})
+		ctx.Set("boomiter", c13BoomIter{})
+		plush.Render("leftover of an abandoned render<%= boom %><%= for (x) in boomiter { %>a<% } %>", ctx)
+	}()
+	func() {
+		defer func() { recover() }()
+		const binds = `<% let leakprobe = "L" %><% contentFor("leakblock") { %>x<% } %><% len = 7 %>`
+		plush.Render(binds, plush.NewContextWith(nil))
+		plush.BuffaloRenderer(binds, nil, nil)
+		plush.Render(binds, plush.NewContextWithOuter(nil, nil))
+	}()
+}
+
+// c13LeakProbe: names bound by earlier renders (on contexts of their own) are unknown to a fresh context.
+func c13LeakProbe(c *Ctx, when string) {
+	const probe = `<%= if (leakprobe) { %>leaked<% } else { %>clean<% } %>|<%= contentOf("leakblock") { %>default<% } %>|<%= len("ab") %>`
+	c.Eval("leakprobe:" + when)
+	o := guarded(5*time.Second, func() (string, error) { return plush.Render(probe, plush.NewContext()) })
+	if o.Out != "clean|default|2" || o.IsErr {
+		c.Fail("state-outlives-render", fmt.Sprintf("%s, rendered with a fresh context %s: (%q, %v), expected \"clean|default|2\"", probe, when, o.Out, o.Err),
+			map[string]interface{}{"gen": "c13LeakProbe", "source_text": probe, "observed": o})
+	}
 }
 
 // c13Soak: one program, 8 executions over every way of obtaining the template.
